@@ -1960,11 +1960,13 @@ class GAM(Core, MetaTermMixin):
         # check if model fitted
         if not self._is_fitted:
             self._validate_params()
-            self._validate_data_dep_params(X)
 
         y = check_y(y, self.link, self.distribution, verbose=self.verbose)
         X = check_X(X, verbose=self.verbose)
         check_X_y(X, y)
+
+        if not self._is_fitted:
+            self._validate_data_dep_params(X)
 
         if weights is not None:
             weights = np.array(weights).astype('f').ravel()
